@@ -490,3 +490,24 @@ Definition c16_alist_end (start size : Z) : Z := c16_wrap 64 (start + size).
 
 (* std::swap of two iterators (three moves); a moved-from iterator is a copy for all the classes here (trivially copyable members) *)
 Definition c16_swap {P} (x y : P) : P * P := let tmp := c16_copy x in (c16_copy y, tmp).
+
+(* ---- dimension audit 2 (mutants/C16/API_COVERAGE.md, "Dimension audit 2") *)
+(* kind A -- PRE-EXISTING STATE OF THE TARGET.  None of the iterator / range classes declares operator=: the implicitly defined copy / move
+   assignment overwrites EVERY data member of the target, and a converting assignment `K = M` is `K tmp(M); target = tmp`. *)
+Definition c16_assign_over {P} (target source : P) : P := c16_copy source.
+(* DenseIterator / GenericIterator: container_ = other.container_; position_ = other.position_ *)
+Definition c16_tag_assign_over {P} (target source : Z * P) : Z * P := (fst source, snd source).
+Definition c16_tag_convert_assign_over {P} (target source : Z * P) : Z * P := c16_tag_assign_over target (c16_convert source).
+(* IndexedIterator<Iter>: Iter::operator=(other); index_ = other.index_ *)
+Definition c16_idx_assign_over {P} (target source : P * Z) : P * Z := (c16_assign_over (fst target) (fst source), snd source).
+(* TransformedRangeIterator: it_ = other.it_; f_ = other.f_ (f_ = address of the function object of the view that made the iterator) *)
+Definition c16_tri_assign_over {P} (target source : P * Z) : P * Z := (fst source, snd source).
+Definition c16_tri_star {P V W} (o : c16_ops P V) (fs : Z -> V -> W) (x : P * Z) : W := fs (snd x) (c16_o_star o (fst x)).
+(* ranges: TransformedRangeView = (rawRange_, f_), IntegralRange = (from_, to_), IteratorRange = (begin_, end_): both members overwritten *)
+Definition c16_range_assign_over {R F} (target source : R * F) : R * F := (fst source, snd source).
+(* StaticIntegralRange<T,to,from>::operator IntegralRange<T>() is `return {from, to}` *)
+Definition c16_sir_to_ir (from to : Z) : Z * Z := (from, to).
+(* kind B -- ASYMMETRIC CONFIGURATION: two IndexedIterators with DIFFERENT indices, an IndexedIterator against its plain base iterator
+   (derived-to-base conversion): the inherited operators of Iter see the base part only *)
+Definition c16_idx_vs_base_eq {P V} (o : c16_ops P V) (x : P * Z) (y : P) : bool := c16_o_eq o (fst x) y.
+Definition c16_idx_vs_base_diff {P V} (o : c16_ops P V) (x : P * Z) (y : P) : Z := c16_o_diff o (fst x) y.
